@@ -331,7 +331,7 @@ theorem neg_rel_arith (V A T K q ρ dD : Int) (ab rb rs lsh Ln Sa d take pinit a
     (hE : |ρ * 2 ^ (ab * d) + dD| ≤ 2 ^ take * 2 ^ (ab * d))
     (hZ : K = V + q * 2 ^ (rb * rs)) :
     ∃ E : Int, A * 2 ^ lsh * 2 ^ (rb * rs) = (V + q * 2 ^ (rb * rs)) * 2 ^ (ab * as_ + Ln * ab) + E * 2 ^ (rb * rs) ∧
-      |E| * 2 ^ (rb * rs) ≤ 2 ^ (ab * as_ + Ln * ab) ∧ (d = 0 → take = 0 → E = 0) := by
+      |E| * 2 ^ (rb * rs) ≤ 2 ^ (ab * as_ + Ln * ab) ∧ (d = 0 → ρ = 0 → E = 0) := by
   subst has
   have hcomm : ab * Sa = Sa * ab := Nat.mul_comm _ _
   rcases hcase with ⟨ht, hd⟩ | hp
@@ -360,9 +360,9 @@ theorem neg_rel_arith (V A T K q ρ dD : Int) (ab rb rs lsh Ln Sa d take pinit a
         omega
       rw [eg]
       exact mul_le_mul_of_nonneg_right hE (le_of_lt (two_pow_pos _))
-    · intro hd ht
-      subst hd; subst ht
-      rw [hρ0 rfl, hd0 rfl]; ring
+    · intro hd hr
+      subst hd
+      rw [hr, hd0 rfl]; ring
 
 end
 
